@@ -1242,6 +1242,8 @@ def run_case(ctx, drv, case):
     if oracle:
         oracle(ctx, case, obs)
     ctx.count((case["kind"], tuple(case["stmts"])), nontrivial=len(case["stmts"]) >= 2)
+    if ctx.hist.get("kind:" + case["kind"], 0) == 0 and case["kind"] != "hand":
+        ctx.sample(dict(kind=case["kind"], stmts=case["stmts"][-5:], out=[o["out"][:60] for o in obs[-5:]]), limit=8)
     ctx.bump("kind:" + case["kind"])
     return obs
 
@@ -1432,11 +1434,20 @@ def run(ctx):
     ctx.assumptions += [
         "the parser is not modelled: the model evaluates the AST the real parser produced",
         "names of the generated programs are not system names; modules, I/O and system functions are outside the model",
-        "integers stay below 2^53 (cases whose results exceed 15 digits are not compared); reals only as data",
+        "integers stay far below the int64 range (a case in which an integer of more than 9 digits appears is not "
+        "compared: numpy integers wrap, Python and Lean integers do not); reals only as data",
         "function values as arguments (higher-order calls) are outside the value universe of the property",
     ]
     global _DRV
     _DRV = drv
+    ctx.partial += [
+        "call_is_substitution (+_var, _at) is proved for the first-order body grammar Body (data, parameters, global "
+        "data variables, monads, dyads other than @, conditionals); bodies with nested calls, calls as adverb verbs and "
+        "recursion through .f are covered by the substitution oracle and the correspondence only",
+        "projection_one_step / projection_any_order assume Stable (the two spare _resolve_fn passes leave the body "
+        "alone): true for operator, conditional, program and data bodies, false for a body that is a bare parameter "
+        "bound to a function in the caller's frame (function-valued arguments are outside the value universe)",
+    ]
     try:
         for st in HAND:
             run_case(ctx, drv, dict(kind="hand", stmts=st))
@@ -1448,12 +1459,12 @@ def run(ctx):
                 c = json.loads(p.read_text())
                 run_case(ctx, drv, c)
         parts = all_partitions()
-        reps = 3 if quick else 40
+        reps = 2 if quick else 40
         for _ in range(reps):
             for n, p in parts:
                 for variant in ("named", "literal", "adverb"):
                     run_case(ctx, drv, case_proj(rng, n, p, variant))
-        n_subst, n_rec, n_cond, n_loc = (700, 150, 300, 300) if quick else (14000, 3000, 6000, 6000)
+        n_subst, n_rec, n_cond, n_loc = (500, 120, 250, 250) if quick else (14000, 3000, 6000, 6000)
         for _ in range(n_subst):
             run_case(ctx, drv, case_subst(rng))
         for _ in range(n_rec):
@@ -1464,18 +1475,18 @@ def run(ctx):
             run_case(ctx, drv, case_locals(rng))
         # failing sub-expression: every (depth, failing level, position), call styles sampled
         combos = [(d, l, p) for d in (1, 2, 3) for l in range(1, d + 1) for p in FRAME_POS]
-        for _ in range(2 if quick else 40):
+        for _ in range(1 if quick else 40):
             for d, l, p in combos:
                 run_case(ctx, drv, case_frame(rng, d, l, p))
         for _ in range(100 if quick else 2000):
             run_case(ctx, drv, case_frame(rng))
-        for _ in range(300 if quick else 6000):
+        for _ in range(200 if quick else 6000):
             strict = rng.choice([0, 0, 1, 2])
             nsys = rng.choice([2, 2, 2, 1, 3])
             run_ctx_sequence(ctx, drv, gen_ctx_ops(rng, rng.randrange(3, 25)), strict, nsys)
         if getattr(ctx, "driver_ok", True) and not ctx.broken:
             recorded = []
-            for n, part in [(3, [[2], [1], [0]]), (3, [[1], [0, 2]])]:
+            for n, part in [(3, [[2], [1], [0]])] + ([] if quick else [(3, [[1], [0, 2]]), (2, [[1], [0]])]):
                 c = case_proj(rng, n, part, "named")
                 recorded.append((c, run_case(ctx, drv, c)))
             c = case_frame(rng, 2, 2, "arg")
